@@ -636,9 +636,13 @@ impl Element {
                 version_new: version_src,
             });
         }
-        self.0
-            .write()
-            .move_element_here(self.downgrade(), move_element, &model, &model_src, version)
+        let (_, files) = self.file_membership()?;
+        let moved_element =
+            self.0
+                .write()
+                .move_element_here(self.downgrade(), move_element, &model, &model_src, version)?;
+        moved_element.fit_file_membership(&files, self.element_type().splittable() != 0);
+        Ok(moved_element)
     }
 
     /// Take an `element` from it's current location and place it at the given position in this element as a sub element
@@ -693,9 +697,17 @@ impl Element {
                 version_new: version_src,
             });
         }
-        self.0
-            .write()
-            .move_element_here_at(self.downgrade(), move_element, position, &model, &model_src, version)
+        let (_, files) = self.file_membership()?;
+        let moved_element = self.0.write().move_element_here_at(
+            self.downgrade(),
+            move_element,
+            position,
+            &model,
+            &model_src,
+            version,
+        )?;
+        moved_element.fit_file_membership(&files, self.element_type().splittable() != 0);
+        Ok(moved_element)
     }
 
     /// Remove the sub element `sub_element`
@@ -1993,6 +2005,39 @@ impl Element {
 
         // no file membership info found at any level - this only happens if the model does not contain any files
         Err(AutosarDataError::NoFilesInModel)
+    }
+
+    /// make the file membership of a moved element fit its new parent
+    ///
+    /// An element can only be restricted to files that contain its parent, and only if the parent is splittable.
+    /// A restriction that does not fit is reduced to the files of the parent; if nothing remains, then the
+    /// element inherits the file membership of the parent. The same applies to all elements below it.
+    pub(crate) fn fit_file_membership(&self, parent_files: &HashSet<WeakArxmlFile>, parent_splittable: bool) {
+        // only one element is locked at any time
+        let (own_files, splittable, sub_elements) = {
+            let mut element = self.0.write();
+            if !element.file_membership.is_empty()
+                && !(parent_splittable && element.file_membership.is_subset(parent_files))
+            {
+                element
+                    .file_membership
+                    .retain(|file| parent_splittable && parent_files.contains(file));
+            }
+            let sub_elements: Vec<Element> = element
+                .content
+                .iter()
+                .filter_map(|item| item.unwrap_element())
+                .collect();
+            (
+                element.file_membership.clone(),
+                element.elemtype.splittable() != 0,
+                sub_elements,
+            )
+        };
+        let files = if own_files.is_empty() { parent_files } else { &own_files };
+        for sub_element in sub_elements {
+            sub_element.fit_file_membership(files, splittable);
+        }
     }
 
     /// return the file membership of this element without trying to get an inherited value
